@@ -51,6 +51,7 @@ class RefDEVS:
         self.callback_cmds = []    # (name, outcome) of commands issued from handlers
         self.obs = []              # observations since the last warm-up / initialize
         self.warm_done = False
+        self.tc_done = set()
 
     # -- scheduling requests -------------------------------------------------
     def _request(self, time, prio, eid):
@@ -139,6 +140,7 @@ class RefDEVS:
         self.ended_by_handler = False
         self.obs = []
         self.warm_done = False
+        self.tc_done = set()
         self.clock = self.start
         self.run_state = INITIALIZED
         self.rep_state = INITIALIZED
@@ -181,12 +183,25 @@ class RefDEVS:
         self.worker_alive = False
         return OK
 
-    def _execute(self, key):
+    def _announce(self, t):
+        """TIME_CHANGED(t) is notified after the imminent event was taken from the
+        list and before the clock moves: a subscriber may schedule at t (the
+        new event runs after the imminent one) or cancel (the imminent event
+        is no longer pending).  Each planned reaction happens once per
+        replication, at the first announcement of its time."""
+        for idx, (T, a) in enumerate(self.p.get("tc_listener", ())):
+            if T == t and idx not in self.tc_done:
+                self.tc_done.add(idx)
+                self._perform("L", idx, a)
+
+    def _execute(self, key, announce_always=False):
         """Pop and execute one event; returns 'pause' if the run must stop
         after it."""
         self.pending.remove(key)
         t, _, _, eid = key
         assert t >= self.clock
+        if announce_always or t != self.clock:
+            self._announce(t)
         self.clock = t
         self.trace.append((t, eid))
         failed = False
@@ -252,7 +267,7 @@ class RefDEVS:
         nxt = min(self.pending) if self.pending else None
         self.last_step_failed = False
         if nxt is not None and nxt[0] <= self.end:
-            self.last_step_failed = self._execute(nxt)
+            self.last_step_failed = self._execute(nxt, True)    # step() always announces
         self.step_boundary = nxt is None or nxt[0] > self.end
         if self.ended_by_handler:
             self._end()
